@@ -3,6 +3,7 @@ package main
 import (
 	"errors"
 	"fmt"
+	v3routepb "github.com/envoyproxy/go-control-plane/envoy/config/route/v3"
 	"sort"
 	"sync/atomic"
 	"time"
@@ -326,7 +327,15 @@ func genHistory(c *ctx, prof histProfile, ndsRequired bool) {
 			if r.chance(prof.pBad) {
 				pos := r.intn(len(slots) + 1)
 				slots = append(slots[:pos], append([][3]string{{"bad", "", ""}}, slots[pos:]...)...)
-				anys = append(anys[:pos], append([]*anypb.Any{badAny(rt, r.intn(3))}, anys[pos:]...)...)
+				bad := badAny(rt, r.intn(3))
+				if rt == "rds" && r.chance(50) {
+					// a route table that carries the NAME of a table of the universe (maybe one that lookups wait for) but cannot
+					// be converted (a route without action): the response is rejected, nothing is stored under that name
+					bad = mustAny(&v3routepb.RouteConfiguration{Name: histUniverse["rds"][r.intn(len(histUniverse["rds"]))],
+						VirtualHosts: []*v3routepb.VirtualHost{{Name: "vh", Routes: []*v3routepb.Route{{Match: &v3routepb.RouteMatch{PathSpecifier: &v3routepb.RouteMatch_Prefix{Prefix: "/"}}}}}}})
+					c.count("push=bad-named", 1)
+				}
+				anys = append(anys[:pos], append([]*anypb.Any{bad}, anys[pos:]...)...)
 				c.count("push=bad", 1)
 			}
 			v, nonce := h.versionOf(rt, version), h.nextNonce()
